@@ -131,6 +131,7 @@ type Exec struct {
 	trace    bool
 	deadline time.Time
 	cur      *frame
+	transcript strings.Builder // permanent solver text of this path (for one-shot fallbacks)
 }
 
 type lockKey struct {
@@ -176,11 +177,82 @@ func (ex *Exec) syncSolver() {
 		sb.WriteString("(assert " + n + ")\n")
 	}
 	ex.sent = len(ex.pc)
+	ex.transcript.WriteString(sb.String())
 	ex.solver.Send(sb.String())
+}
+
+// oneShot re-decides pc ∧ extra with fresh, non-incremental solver processes
+// (cvc5, then the distribution's z3) when the incremental solver answered
+// unknown. Returns "sat"/"unsat"/"unknown" and a model on sat.
+func (ex *Exec) oneShot(extra *Term) (string, Model) {
+	ex.syncSolver()
+	var sb strings.Builder
+	sb.WriteString(ex.transcript.String())
+	if extra != nil {
+		n := ex.em.Name(ex.st, extra)
+		defs := ex.em.Flush()
+		ex.transcript.WriteString(defs)
+		ex.solver.Send(defs)
+		sb.WriteString(defs)
+		sb.WriteString("(assert " + n + ")\n")
+	}
+	body := sb.String()
+	for _, name := range []string{"cvc5", "z3"} {
+		remain := time.Until(ex.deadline)
+		if !ex.deadline.IsZero() && remain < 5*time.Second {
+			break
+		}
+		lim := 60 * time.Second
+		if !ex.deadline.IsZero() && remain < lim {
+			lim = remain
+		}
+		sv, err := NewSolver(name, int(lim/time.Millisecond))
+		if err != nil {
+			continue
+		}
+		ex.prog.addFallback()
+		sv.Send(body)
+		r := sv.CheckSat()
+		var m Model
+		if r == "sat" {
+			names, keys := ex.modelNames()
+			if vals, ok := sv.GetValues(names); ok {
+				m = Model{}
+				for i, n := range names {
+					m[keys[i]] = vals[n]
+				}
+			} else {
+				r = "unknown"
+			}
+		}
+		sv.Close()
+		if r == "sat" || r == "unsat" {
+			return r, m
+		}
+	}
+	return "unknown", nil
 }
 
 // valueNames lists every declared var / app for get-value.
 func (ex *Exec) fetchModel() (Model, bool) {
+	sn, sk := ex.modelNames()
+	if len(sn) == 0 {
+		return Model{}, true
+	}
+	vals, ok := ex.solver.GetValues(sn)
+	if !ok {
+		return nil, false
+	}
+	m := Model{}
+	for i, n := range sn {
+		m[sk[i]] = vals[n]
+	}
+	return m, true
+}
+
+// modelNames lists the solver names and model keys of every declared
+// variable / uninterpreted application, in a deterministic order.
+func (ex *Exec) modelNames() ([]string, []string) {
 	var names []string
 	var keys []string
 	for t, n := range ex.em.done {
@@ -193,7 +265,7 @@ func (ex *Exec) fetchModel() (Model, bool) {
 		}
 	}
 	if len(names) == 0 {
-		return Model{}, true
+		return nil, nil
 	}
 	// deterministic order
 	idx := make([]int, len(names))
@@ -206,15 +278,7 @@ func (ex *Exec) fetchModel() (Model, bool) {
 	for i, j := range idx {
 		sn[i], sk[i] = names[j], keys[j]
 	}
-	vals, ok := ex.solver.GetValues(sn)
-	if !ok {
-		return nil, false
-	}
-	m := Model{}
-	for i, n := range sn {
-		m[sk[i]] = vals[n]
-	}
-	return m, true
+	return sn, sk
 }
 
 // query checks pc ∧ extra. Returns "sat"/"unsat"/"unknown" and a model on sat.
@@ -229,7 +293,9 @@ func (ex *Exec) query(extra *Term) (string, Model) {
 	ex.syncSolver()
 	if extra != nil {
 		n := ex.em.Name(ex.st, extra)
-		ex.solver.Send(ex.em.Flush())
+		defs := ex.em.Flush()
+		ex.transcript.WriteString(defs)
+		ex.solver.Send(defs)
 		ex.solver.Push()
 		ex.solver.Send("(assert " + n + ")\n")
 	}
@@ -274,6 +340,13 @@ func (ex *Exec) ensureModel() bool {
 	switch r {
 	case "sat":
 		ex.model, ex.modelOK = m, true
+		return true
+	case "unsat":
+		return false
+	}
+	switch r2, m2 := ex.oneShot(nil); r2 {
+	case "sat":
+		ex.model, ex.modelOK = m2, true
 		return true
 	case "unsat":
 		return false
@@ -526,6 +599,9 @@ func (ex *Exec) obligation(c *Term, label string, kind string) {
 		r, m = "sat", ex.model
 	} else {
 		r, m = ex.query(nc)
+		if r == "unknown" {
+			r, m = ex.oneShot(nc)
+		}
 	}
 	switch r {
 	case "unsat":
@@ -533,6 +609,7 @@ func (ex *Exec) obligation(c *Term, label string, kind string) {
 		return
 	case "unknown":
 		ex.res.inconcl++
+		ex.res.reach["inconclusive:"+label] = true
 		ex.addPC(c)
 		ex.modelOK = false
 		return
